@@ -437,4 +437,292 @@ theorem brt_parseMagic_b2 (rest : Bytes) : parseMagic (BVer.magic .b2 ++ rest) =
   simp [parseMagic, BVer.magic, headerMagicB1, headerMagicB2, versionMagicB1, versionMagicB2]
 
 theorem brt_parseMagic_b1 (rest : Bytes) : parseMagic (BVer.magic .b1 ++ rest) = some (.b1, rest) := by
-  simp [parseMagic, BVer.magic, headerMagicB1, headerMagicB2, versionMagicB1, versionMagicB2]
+  simp [parseMagic, BVer.magic, headerMagicB1, headerMagicB2, versionMagicB1]
+
+theorem brt_any_name_false (l : List SectionOffset) (k : Bytes) (hk : k ∉ l.map (·.name)) :
+    l.any (fun x => x.name == k) = false := by
+  cases hh : l.any (fun x => x.name == k) with
+  | false => rfl
+  | true =>
+    exfalso
+    obtain ⟨x, hx, hxe⟩ := List.any_eq_true.mp hh
+    exact hk (List.mem_map.mpr ⟨x, hx, by simpa using hxe⟩)
+
+/-- the section table the reader builds from the writer's sections -/
+def brt_sos (sections : List (Bytes × Bytes)) : List SectionOffset :=
+  sections.map fun s => { name := s.1, length := s.2.length }
+
+/-- the pair loop of `decodeSectionLengthsCBOR` over the writer's (name, length) pairs -/
+theorem brt_sectionPairs : ∀ (secs : List (Bytes × Bytes)) (tail : Bytes) (acc : List SectionOffset),
+    (∀ s ∈ secs, utf8Valid s.1 = true ∧ s.1.length < 2 ^ 63 ∧ s.2.length < 2 ^ 64) →
+    (acc.map (·.name) ++ secs.map Prod.fst).Nodup →
+    decodeSectionPairs secs.length ((secs.map fun s => tstr s.1 ++ encodeUint s.2.length).flatten ++ tail) acc =
+      some (acc ++ brt_sos secs) := by
+  intro secs
+  induction secs with
+  | nil => intro tail acc _ _; simp [decodeSectionPairs, brt_sos]
+  | cons s rest ih =>
+    intro tail acc hall hnd
+    obtain ⟨a1, a2, a3⟩ := hall s (by simp)
+    have hrest : ∀ x ∈ rest, utf8Valid x.1 = true ∧ x.1.length < 2 ^ 63 ∧ x.2.length < 2 ^ 64 :=
+      fun x hx => hall x (List.mem_cons_of_mem _ hx)
+    have e0 : ((s :: rest).map fun s => tstr s.1 ++ encodeUint s.2.length).flatten ++ tail =
+        tstr s.1 ++ (encodeUint s.2.length ++ ((rest.map fun s => tstr s.1 ++ encodeUint s.2.length).flatten ++ tail)) := by
+      simp
+    have hfresh : s.1 ∉ acc.map (·.name) := by
+      intro hm
+      exact (List.nodup_append.mp hnd).2.2 _ hm s.1 (by simp) rfl
+    rw [e0, List.length_cons, decodeSectionPairs, brt_decodeText_tstr _ a1 a2]
+    dsimp only
+    rw [brt_any_name_false acc s.1 hfresh, if_neg (by decide), C12.roundtrip_uint _ a3]
+    dsimp only
+    rw [ih tail _ hrest (by
+      have : ((acc ++ [({ name := s.1, length := s.2.length } : SectionOffset)]).map (·.name) ++ rest.map Prod.fst) =
+          acc.map (·.name) ++ (s :: rest).map Prod.fst := by simp
+      rw [this]; exact hnd)]
+    simp [brt_sos]
+
+theorem brt_decodeSectionLengths (sections : List (Bytes × Bytes))
+    (hall : ∀ s ∈ sections, utf8Valid s.1 = true ∧ s.1.length < 2 ^ 63 ∧ s.2.length < 2 ^ 64)
+    (hnd : (sections.map Prod.fst).Nodup) (hn : sections.length < 2 ^ 63) :
+    decodeSectionLengths (lengthsOf sections) = some (brt_sos sections) := by
+  have e : lengthsOf sections = encodeArrayHeader (sections.length * 2) ++
+      ((sections.map fun s => tstr s.1 ++ encodeUint s.2.length).flatten ++ []) := by
+    rw [List.append_nil]; rfl
+  unfold decodeSectionLengths
+  rw [e, C12.roundtrip_arrayHeader _ (by omega)]
+  dsimp only
+  have : (sections.length * 2 + 1) / 2 = sections.length := by omega
+  rw [this, brt_sectionPairs sections [] [] hall (by simpa using hnd), List.nil_append]
+
+theorem brt_sectionsFit_of_le : ∀ (sos : List SectionOffset) (rem : Nat), lenSum sos ≤ rem → sectionsFit sos rem = true := by
+  intro sos
+  induction sos with
+  | nil => intro rem _; rfl
+  | cons so rest ih =>
+    intro rem h
+    rw [lenSum_cons] at h
+    rw [sectionsFit, if_neg (by omega)]
+    exact ih _ (by omega)
+
+theorem brt_lenSum_sos (sections : List (Bytes × Bytes)) :
+    lenSum (brt_sos sections) = ((sections.map (·.2)).flatten).length := by
+  induction sections with
+  | nil => rfl
+  | cons s rest ih =>
+    simp only [brt_sos, List.map_cons, lenSum_cons, List.flatten_cons, List.length_append] at ih ⊢
+    rw [ih]
+
+/-- the part of `loadMetadata` after the magic bytes (and, for b1, the fallback URL) -/
+def brt_metaTail (url : BUrlFacts) (parseOk : Bytes → Bool) (ver : BVer) (bs : Bytes) (fallback : Option Bytes)
+    (r1 : Bytes) : Outcome Meta :=
+  match decodeByteString r1 with
+  | none => .error
+  | some (slbytes, r2) =>
+    if slbytes.length ≥ 8192 then .error
+    else match decodeSectionLengths slbytes with
+      | none => .error
+      | some sos =>
+        match decodeArrayHeader r2 with
+        | none => .error
+        | some (numSections, r3) =>
+          if numSections ≠ sos.length then .error
+          else
+            let sectionsStart := bs.length - r3.length
+            if sos.isEmpty ∨ (sos.getLast?.map (·.name)) ≠ some nResponses then .error
+            else if !sectionsFit sos (bs.length - sectionsStart) then .error
+            else sectionLoop url parseOk ver bs sectionsStart sos sos sectionsStart
+              { version := ver, primaryURL := fallback, manifestURL := none, signatures := none, requests := [] }
+
+theorem brt_loadMetadata_b2 (url : BUrlFacts) (parseOk : Bytes → Bool) (bs r0 : Bytes)
+    (h : parseMagic bs = some (.b2, r0)) : loadMetadata url parseOk bs = brt_metaTail url parseOk .b2 bs none r0 := by
+  unfold loadMetadata
+  rw [h]
+  rfl
+
+theorem brt_loadMetadata_b1 (url : BUrlFacts) (parseOk : Bytes → Bool) (bs r0 raw r1 str : Bytes) (x y z : Bool)
+    (h : parseMagic bs = some (.b1, r0)) (h1 : decodeTextString r0 = some (raw, r1)) (h2 : url raw = some (x, y, z, str)) :
+    loadMetadata url parseOk bs = brt_metaTail url parseOk .b1 bs (some str) r1 := by
+  unfold loadMetadata
+  rw [h]
+  dsimp only
+  rw [h1]
+  dsimp only
+  rw [h2]
+  rfl
+
+/-- the prologue of `loadMetadata` on the writer's layout: the section table comes back and the section loop starts
+    at the first section -/
+theorem brt_metaTail_sections (url : BUrlFacts) (parseOk : Bytes → Bool) (ver : BVer) (fallback : Option Bytes)
+    (pre : Bytes) (init : List (Bytes × Bytes)) (resp footer : Bytes)
+    (hall : ∀ s ∈ init ++ [(nResponses, resp)], utf8Valid s.1 = true ∧ s.1.length < 2 ^ 63)
+    (hnd : ((init ++ [(nResponses, resp)]).map Prod.fst).Nodup)
+    (hsl : (lengthsOf (init ++ [(nResponses, resp)])).length < 8192)
+    (hlen : (pre ++ (encodeBytes (lengthsOf (init ++ [(nResponses, resp)])) ++
+      (encodeArrayHeader (init ++ [(nResponses, resp)]).length ++
+        (((init ++ [(nResponses, resp)]).map (·.2)).flatten ++ footer)))).length < 2 ^ 63) :
+    brt_metaTail url parseOk ver
+      (pre ++ (encodeBytes (lengthsOf (init ++ [(nResponses, resp)])) ++
+        (encodeArrayHeader (init ++ [(nResponses, resp)]).length ++
+          (((init ++ [(nResponses, resp)]).map (·.2)).flatten ++ footer)))) fallback
+      (encodeBytes (lengthsOf (init ++ [(nResponses, resp)])) ++
+        (encodeArrayHeader (init ++ [(nResponses, resp)]).length ++
+          (((init ++ [(nResponses, resp)]).map (·.2)).flatten ++ footer))) =
+    sectionLoop url parseOk ver
+      (pre ++ (encodeBytes (lengthsOf (init ++ [(nResponses, resp)])) ++
+        (encodeArrayHeader (init ++ [(nResponses, resp)]).length ++
+          (((init ++ [(nResponses, resp)]).map (·.2)).flatten ++ footer))))
+      (pre ++ (encodeBytes (lengthsOf (init ++ [(nResponses, resp)])) ++
+        encodeArrayHeader (init ++ [(nResponses, resp)]).length)).length
+      (brt_sos (init ++ [(nResponses, resp)])) (brt_sos (init ++ [(nResponses, resp)]))
+      (pre ++ (encodeBytes (lengthsOf (init ++ [(nResponses, resp)])) ++
+        encodeArrayHeader (init ++ [(nResponses, resp)]).length)).length
+      { version := ver, primaryURL := fallback, manifestURL := none, signatures := none, requests := [] } := by
+  generalize hsec : init ++ [(nResponses, resp)] = sections at *
+  have hflat : ∀ s ∈ sections, s.2.length ≤ ((sections.map (·.2)).flatten).length := fun s hs =>
+    Sxg.length_le_flatten _ _ (List.mem_map.mpr ⟨s, hs, rfl⟩)
+  simp only [List.length_append] at hlen
+  have hall' : ∀ s ∈ sections, utf8Valid s.1 = true ∧ s.1.length < 2 ^ 63 ∧ s.2.length < 2 ^ 64 := by
+    intro s hs
+    have := hflat s hs
+    exact ⟨(hall s hs).1, (hall s hs).2, by omega⟩
+  have hcount : sections.length < 2 ^ 63 := by
+    have : sections.length ≤ (lengthsOf sections).length := by
+      rw [lengthsOf_eq]
+      clear hflat hall hall' hnd hsl hlen hsec
+      have : ∀ (l : List (Bytes × Bytes)), l.length ≤
+          ((l.map fun (s : Bytes × Bytes) => Spec.Sxg.tstr s.1 ++ encodeHead 0 s.2.length).flatten).length := by
+        intro l
+        induction l with
+        | nil => simp
+        | cons s rest ih =>
+          have := brt_encodeHead_pos 0 s.2.length
+          simp only [List.map_cons, List.flatten_cons, List.length_append, List.length_cons] at ih ⊢
+          omega
+      have := this sections
+      simp only [List.length_append]; omega
+    omega
+  unfold brt_metaTail
+  rw [C12.roundtrip_bytes _ (by omega)]
+  dsimp only
+  rw [if_neg (by omega), brt_decodeSectionLengths sections hall' hnd hcount]
+  dsimp only
+  rw [C12.roundtrip_arrayHeader _ (by omega)]
+  dsimp only
+  have hsl' : (brt_sos sections).length = sections.length := by simp [brt_sos]
+  rw [if_neg (by rw [hsl']; exact fun h => h rfl)]
+  have hne : ¬ ((brt_sos sections).isEmpty = true ∨ ((brt_sos sections).getLast?.map (·.name)) ≠ some nResponses) := by
+    rw [← hsec]
+    simp [brt_sos]
+  rw [if_neg hne]
+  have hS : (pre ++ (encodeBytes (lengthsOf sections) ++ (encodeArrayHeader sections.length ++
+        ((sections.map (·.2)).flatten ++ footer)))).length - ((sections.map (·.2)).flatten ++ footer).length =
+      (pre ++ (encodeBytes (lengthsOf sections) ++ encodeArrayHeader sections.length)).length := by
+    simp only [List.length_append]; omega
+  rw [hS]
+  have hfit : sectionsFit (brt_sos sections)
+      ((pre ++ (encodeBytes (lengthsOf sections) ++ (encodeArrayHeader sections.length ++
+        ((sections.map (·.2)).flatten ++ footer)))).length -
+        (pre ++ (encodeBytes (lengthsOf sections) ++ encodeArrayHeader sections.length)).length) = true := by
+    apply brt_sectionsFit_of_le
+    rw [brt_lenSum_sos]
+    simp only [List.length_append]; omega
+  rw [hfit]
+  rfl
+
+theorem brt_findSection : ∀ (pre : List SectionOffset) (so : SectionOffset) (post : List SectionOffset) (off : Nat),
+    (∀ s ∈ pre, s.name ≠ so.name) → off + lenSum pre < 2 ^ 64 →
+    findSection (pre ++ so :: post) so.name off = some (so, off + lenSum pre) := by
+  intro pre
+  induction pre with
+  | nil => intro so post off _ _; simp [findSection]
+  | cons s rest ih =>
+    intro so post off hne hb
+    rw [lenSum_cons] at hb
+    rw [List.cons_append, findSection, if_neg (hne s (by simp)), w64_of_lt (by omega),
+      ih so post _ (fun x hx => hne x (List.mem_cons_of_mem _ hx)) (by omega), lenSum_cons]
+    congr 2; omega
+
+/-! #### steps of the section loop -/
+
+theorem brt_step_responses (url : BUrlFacts) (parseOk : Bytes → Bool) (ver : BVer) (bs : Bytes) (start : Nat)
+    (sos : List SectionOffset) (so : SectionOffset) (rest : List SectionOffset) (offset : Nat) (m : Meta)
+    (hn : so.name = nResponses) :
+    sectionLoop url parseOk ver bs start sos (so :: rest) offset m =
+      sectionLoop url parseOk ver bs start sos rest offset m := by
+  rw [sectionLoop, hn, if_neg (by decide), if_pos rfl]
+
+/-- common part of the steps that look at the contents of a section -/
+theorem brt_step_contents (url : BUrlFacts) (parseOk : Bytes → Bool) (ver : BVer) (bs : Bytes) (start : Nat)
+    (sos : List SectionOffset) (so : SectionOffset) (rest : List SectionOffset) (offset : Nat) (m : Meta)
+    (hk : knownSection so.name = true) (hn : so.name ≠ nResponses) (hb : offset + so.length < bs.length)
+    (hlen : bs.length < 2 ^ 64) :
+    sectionLoop url parseOk ver bs start sos (so :: rest) offset m =
+      if so.name = nIndex then
+        match parseIndex url ver ((bs.drop offset).take so.length) start sos with
+        | none => .error
+        | some reqs => sectionLoop url parseOk ver bs start sos rest (offset + so.length) { m with requests := reqs }
+      else if so.name = nPrimary then
+        match parseUrlSection url ((bs.drop offset).take so.length) with
+        | none => .error
+        | some u => sectionLoop url parseOk ver bs start sos rest (offset + so.length) { m with primaryURL := some u }
+      else if so.name = nManifest then
+        match parseUrlSection url ((bs.drop offset).take so.length) with
+        | none => .error
+        | some u => sectionLoop url parseOk ver bs start sos rest (offset + so.length) { m with manifestURL := some u }
+      else
+        match parseSignatures parseOk ((bs.drop offset).take so.length) with
+        | none => .error
+        | some s => sectionLoop url parseOk ver bs start sos rest (offset + so.length) { m with signatures := some s } := by
+  rw [sectionLoop, hk, if_neg (by decide), if_neg hn, if_neg (by omega)]
+  dsimp only
+  rw [w64_of_lt (by omega), if_neg (by omega), if_neg (by omega)]
+  rfl
+
+theorem brt_step_index (url : BUrlFacts) (parseOk : Bytes → Bool) (ver : BVer) (bs : Bytes) (start : Nat)
+    (sos : List SectionOffset) (so : SectionOffset) (rest : List SectionOffset) (offset : Nat) (m : Meta)
+    (reqs : List ReqEntry) (hname : so.name = nIndex) (hb : offset + so.length < bs.length) (hlen : bs.length < 2 ^ 64)
+    (hp : parseIndex url ver ((bs.drop offset).take so.length) start sos = some reqs) :
+    sectionLoop url parseOk ver bs start sos (so :: rest) offset m =
+      sectionLoop url parseOk ver bs start sos rest (offset + so.length) { m with requests := reqs } := by
+  rw [brt_step_contents url parseOk ver bs start sos so rest offset m (by rw [hname]; decide)
+    (by rw [hname]; decide) hb hlen, if_pos hname, hp]
+
+theorem brt_step_primary (url : BUrlFacts) (parseOk : Bytes → Bool) (ver : BVer) (bs : Bytes) (start : Nat)
+    (sos : List SectionOffset) (so : SectionOffset) (rest : List SectionOffset) (offset : Nat) (m : Meta)
+    (u : Bytes) (hname : so.name = nPrimary) (hb : offset + so.length < bs.length) (hlen : bs.length < 2 ^ 64)
+    (hp : parseUrlSection url ((bs.drop offset).take so.length) = some u) :
+    sectionLoop url parseOk ver bs start sos (so :: rest) offset m =
+      sectionLoop url parseOk ver bs start sos rest (offset + so.length) { m with primaryURL := some u } := by
+  rw [brt_step_contents url parseOk ver bs start sos so rest offset m (by rw [hname]; decide)
+    (by rw [hname]; decide) hb hlen, hname, if_neg (by decide), if_pos rfl, hp]
+
+theorem brt_step_manifest (url : BUrlFacts) (parseOk : Bytes → Bool) (ver : BVer) (bs : Bytes) (start : Nat)
+    (sos : List SectionOffset) (so : SectionOffset) (rest : List SectionOffset) (offset : Nat) (m : Meta)
+    (u : Bytes) (hname : so.name = nManifest) (hb : offset + so.length < bs.length) (hlen : bs.length < 2 ^ 64)
+    (hp : parseUrlSection url ((bs.drop offset).take so.length) = some u) :
+    sectionLoop url parseOk ver bs start sos (so :: rest) offset m =
+      sectionLoop url parseOk ver bs start sos rest (offset + so.length) { m with manifestURL := some u } := by
+  rw [brt_step_contents url parseOk ver bs start sos so rest offset m (by rw [hname]; decide)
+    (by rw [hname]; decide) hb hlen, hname, if_neg (by decide), if_neg (by decide), if_pos rfl, hp]
+
+theorem brt_step_sigs (url : BUrlFacts) (parseOk : Bytes → Bool) (ver : BVer) (bs : Bytes) (start : Nat)
+    (sos : List SectionOffset) (so : SectionOffset) (rest : List SectionOffset) (offset : Nat) (m : Meta)
+    (s : Sigs) (hname : so.name = nSignatures) (hb : offset + so.length < bs.length) (hlen : bs.length < 2 ^ 64)
+    (hp : parseSignatures parseOk ((bs.drop offset).take so.length) = some s) :
+    sectionLoop url parseOk ver bs start sos (so :: rest) offset m =
+      sectionLoop url parseOk ver bs start sos rest (offset + so.length) { m with signatures := some s } := by
+  rw [brt_step_contents url parseOk ver bs start sos so rest offset m (by rw [hname]; decide)
+    (by rw [hname]; decide) hb hlen, hname, if_neg (by decide), if_neg (by decide), if_neg (by decide), hp]
+
+/-- `parsePrimarySection` / `parseManifestSection` on the writer's text item -/
+theorem brt_parseUrlSection (url : BUrlFacts) (u x : Bytes) (hx : encodeUrlSection u = .ok x) (hl : u.length < 2 ^ 63)
+    (hu : url u = some (false, false, true, u)) : parseUrlSection url x = some u := by
+  unfold encodeUrlSection at hx
+  have := C12.roundtrip_text u x hl hx []
+  rw [List.append_nil] at this
+  unfold parseUrlSection
+  rw [this]
+  dsimp only
+  rw [hu]
+  rfl
